@@ -285,6 +285,27 @@ def _finish_inserted(ctx, R, un, vals):
         ctx.check(R, ok, 'inserted-is-merged', 'with a merger configured the value inserted for a key must be the fold of all its values: %s' % bad, fn=un)
 
 
+def r19_lossless(ctx):
+    """every intermediate result of a round must go into some batch of the next: no lossy slicing of the work list"""
+    R = 'R19.3'
+    b = ctx.bin
+    mg = b.fn(MERGE)
+    if mg is None:
+        return
+    lossy = ('::chunks_exact', '::rchunks_exact', '::array_chunks', '::truncate', '::take', '::skip', '::step_by', '::dedup')
+    cg = CallGraph(b)
+    fns = [mg] + [b.fns[q] for q in sorted(cg.reachable([mg.path])) if q in b.fns and q.startswith('merge::') and q != mg.path]
+    bad = []
+    for g in fns:
+        for _, t in g.calls():
+            c = g.callee(t) or ''
+            if c.endswith(lossy):
+                bad.append((g, t, c))
+    for g, t, c in bad:
+        ctx.violation(R, 'lossy:' + c.rsplit('::', 1)[-1], 'the merge pipeline slices its work list with %s, which drops items (a remainder, a prefix, every n-th): keys of whole batches disappear depending on --fd-limit / --batch-size' % c.rsplit('::', 1)[-1], fn=g, at=t.get('span'))
+    ctx.check(R, not bad, 'lossless-batching', 'lossy slicing in the merge pipeline', fn=mg)
+
+
 def r19_3(ctx):
     R = ctx.rule('R19.3', 'duplicate policy: equal keys are resolved only by the merger; no pair de-duplication; no builder error swallowed', floor=4)
     b = ctx.bin
@@ -381,4 +402,5 @@ def run(ctx):
     ctx.step(r19_1, ctx)
     ctx.step(r19_2, ctx)
     ctx.step(r19_3, ctx)
+    ctx.step(r19_lossless, ctx)
     ctx.step(r19_4, ctx)
